@@ -193,6 +193,131 @@ def listen_case(is_async, word, fail_stage):
     return v
 
 
+def _quiet_server():
+    import logging
+    lg = logging.getLogger('verif.c15.redis')
+    lg.disabled = True
+    return types.SimpleNamespace(logger=lg)
+
+
+def restart_case(is_async, bad):
+    """The real listener (_thread over _listen) of a Redis manager on a
+    stateful fake: messages reach the manager only while the channel is
+    subscribed.  A bad value between two valid messages makes the listener
+    restart its iteration; the message that follows must still arrive."""
+    import gc
+    import json
+    v = []
+    what = f'{"Async" if is_async else ""}RedisManager listener, ' \
+           f'valid / {bad!r} / valid'
+    handled = []
+    feed = [pickle.dumps({'method': 'emit', 'n': 1, 'host_id': 'X'}), bad,
+            pickle.dumps({'method': 'emit', 'n': 2, 'host_id': 'X'})]
+    state = {'subscribed': set(), 'pos': 0, 'log': []}
+
+    def item(pubsub):
+        gc.collect()
+        if state['pos'] >= len(feed):
+            raise Stop()
+        if 'socketio' not in state['subscribed']:
+            state['log'].append('not subscribed when message %d was due'
+                                % (state['pos'] + 1))
+            raise Stop()
+        d = feed[state['pos']]
+        state['pos'] += 1
+        return {'type': 'message', 'channel': b'socketio', 'data': d}
+
+    class PubSub:
+        if is_async:
+            async def subscribe(self, ch):
+                state['subscribed'].add(ch)
+
+            async def unsubscribe(self, ch):
+                state['subscribed'].discard(ch)
+
+            async def listen(self):
+                while True:
+                    # give abandoned generators the chance to be finalised
+                    # by the event loop before the next message is due
+                    gc.collect()
+                    for _ in range(3):
+                        await asyncio.sleep(0)
+                    yield item(self)
+        else:
+            def subscribe(self, ch):
+                state['subscribed'].add(ch)
+
+            def unsubscribe(self, ch):
+                state['subscribed'].discard(ch)
+
+            def listen(self):
+                while True:
+                    yield item(self)
+
+    class Redis:
+        @classmethod
+        def from_url(cls, url, **kw):
+            return cls()
+
+        def pubsub(self, **kw):
+            return PubSub()
+    mod = types.SimpleNamespace(
+        Redis=Redis, exceptions=types.SimpleNamespace(RedisError=RedisError))
+    if is_async:
+        import socketio.async_redis_manager as rm
+        saved = (rm.aioredis, rm.RedisError)
+        rm.aioredis = mod
+        rm.RedisError = RedisError
+        loop = install(VLoop())
+        try:
+            m = rm.AsyncRedisManager('redis://x')
+
+            async def handle_emit(message):
+                handled.append(message.get('n'))
+            m._handle_emit = handle_emit
+            m.server = _quiet_server()
+            try:
+                loop.run_value(m._thread())
+            except Stop:
+                pass
+            except Exception as e:
+                v.append(('C15/redis-listener-died', f'{what}: {e!r}'))
+        finally:
+            rm.aioredis, rm.RedisError = saved
+            try:
+                for t in asyncio.all_tasks(loop):
+                    t.cancel()
+                loop.run()
+            except BaseException:
+                pass
+            loop.close()
+            asyncio.set_event_loop(None)
+    else:
+        import socketio.redis_manager as rm
+        saved = rm.redis
+        rm.redis = mod
+        try:
+            m = rm.RedisManager('redis://x')
+            m._handle_emit = lambda message: handled.append(message.get('n'))
+            m.server = _quiet_server()
+            try:
+                m._thread()
+            except Stop:
+                pass
+            except Exception as e:
+                v.append(('C15/redis-listener-died', f'{what}: {e!r}'))
+        finally:
+            rm.redis = saved
+    if [h for h in handled if h is not None] != [1, 2]:
+        v.append(('C15/redis-restart-lost', f'{what}: handled {handled}, '
+                  f'expected [1, 2] ({state["log"]})'))
+    return v
+
+
+RESTART_BAD = [b'7', '7', b'\x80garbage', pickle.dumps([1, 2]), b'null',
+               pickle.dumps({'method': 'emit'})]
+
+
 def publish_case(is_async, script):
     v = []
     mod, st = make_fake((), is_async, 'connect')
@@ -260,6 +385,13 @@ def run(tier, seed, result):
                     'module': 'mc.checks.c15_redis',
                     'func': 'replay_publish',
                     'args': [is_async, ''.join(script)]}})
+    for is_async in (False, True):
+        for i, bad in enumerate(RESTART_BAD):
+            n += 1
+            for key, msg in restart_case(is_async, bad):
+                result.violation(key, msg, {'replay': {
+                    'module': 'mc.checks.c15_redis',
+                    'func': 'replay_restart', 'args': [is_async, i]}})
     return (f'Redis backends through a fake module: {n} retry words '
             f'(every F/S word up to length {maxlen} x failure at connect / '
             f'subscribe, a 9-failure run, 5 publish scripts)'), n
@@ -268,6 +400,11 @@ def run(tier, seed, result):
 def replay_listen(is_async, word, stage):
     common.setup_imports()
     return listen_case(is_async, tuple(word), stage)
+
+
+def replay_restart(is_async, i):
+    common.setup_imports()
+    return restart_case(is_async, RESTART_BAD[i])
 
 
 def replay_publish(is_async, script):
